@@ -51,6 +51,11 @@ structure Err where
 def errorf (_fmt : String) : Err := ⟨"error"⟩
 def errT (kind _fmt : String) : Err := ⟨kind⟩
 
+/-- `errors.Is(err, target)` for sentinel / typed errors: same kind -/
+def errIs (e : Option Err) (target : Err) : Bool := e == some target
+/-- `errors.Join(errs...)`: nil iff every element is nil -/
+def errJoin (es : List (Option Err)) : Option Err := if es.all (·.isNone) then none else some ⟨"joined"⟩
+
 /-- a Go map as an association list -/
 abbrev Map (κ ν : Type) := List (κ × ν)
 
